@@ -9,6 +9,7 @@ import NutsModel.Facts.C20
 import NutsProofs.Lemmas.C20
 import NutsModel.C20.Outbound
 import NutsModel.C20.Sources
+import NutsModel.C20.Engines
 import NutsProofs.Lemmas.C20b
 
 namespace Nuts.C20.Props
@@ -548,5 +549,48 @@ theorem load_full_refines_load (c : Config) :
   rw [load_check_order]
   unfold load
   cases (c.cliFlags.any isSecretFlag) <;> cases c.movedKey <;> simp <;> decide
+
+/-! ### Deepening round 2026-09-28 — crypto back-end names and the TLS file options (model NutsModel/C20/Engines.lean) -/
+
+/-- the names `crypto.Configure`'s switch accepts (case list + the StorageType constants of the back-end packages), and
+    `TLSConfig.Enabled` regenerated as a definition: certificate OR key configured (the trust store does not count) -/
+theorem fact_crypto_backends_tls_enabled :
+    Facts.C20.cryptoBackendNames = [[102, 115], [118, 97, 117, 108, 116, 107, 118],
+      [97, 122, 117, 114, 101, 45, 107, 101, 121, 118, 97, 117, 108, 116], [101, 120, 116, 101, 114, 110, 97, 108]] ∧
+    Facts.C20.tlsEnabled = fun a b _ => decide (a > 0 ∨ b > 0) := ⟨by decide, rfl⟩
+
+/-- **crypto_backend_exact.** In strict mode the crypto engine accepts a `crypto.storage` value iff it is, byte for byte,
+    one of the back-end names of the switch (no case folding, no trimming; the empty name is the implicit back-end) -/
+theorem crypto_backend_exact (c : Config) (hs : c.strict = true) (v : Bytes) :
+    cryptoConfigure { c with cryptoStorage := classifyStorage Facts.C20.cryptoBackendNames v } = none ↔
+      v ∈ Facts.C20.cryptoBackendNames := by
+  unfold cryptoConfigure classifyStorage
+  by_cases h : v ∈ Facts.C20.cryptoBackendNames
+  · simp [h]
+  · by_cases he : v = []
+    · subst he; simp [h, hs]
+    · simp [h, he]
+
+example : classifyStorage Facts.C20.cryptoBackendNames [70, 83] = .invalid ∧ classifyStorage Facts.C20.cryptoBackendNames [102, 115] = .explicit ∧
+    classifyStorage Facts.C20.cryptoBackendNames [] = .implicit := by decide
+
+/-- **start_files_refines.** Start-up over the three tls.* file options (regenerated `Enabled`) refines `start` whenever
+    the TLS settings are complete or absent: `tls` of the abstract model IS `TLSConfig.Enabled()` -/
+theorem start_files_refines (c : Config) (f : TLSFiles) (hc : f.consistent = true) :
+    startFiles Facts.C20.tlsEnabled tlds l2s c f = start tlds l2s { c with tls := Facts.C20.tlsEnabled f.certLen f.keyLen f.trustLen } := by
+  rw [fact_crypto_backends_tls_enabled.2]; exact startFiles_refines tlds l2s c f hc
+
+/-- **tls_never_half.** Every configuration, either mode: a node that starts has either the complete TLS material
+    (certificate, key, trust store, all valid) or no certificate and no key at all — and the latter, on a strict node, only
+    with the network engine disabled. A trust store alone does not count as TLS -/
+theorem tls_never_half (c : Config) (f : TLSFiles) (r : Running) (h : startFiles Facts.C20.tlsEnabled tlds l2s c f = .ok r) :
+    (f.certLen > 0 ∧ f.keyLen > 0 ∧ f.trustLen > 0 ∧ f.valid = true) ∨ (f.certLen = 0 ∧ f.keyLen = 0 ∧ (c.strict = true → c.nuts = false)) := by
+  rw [fact_crypto_backends_tls_enabled.2] at h; exact startFiles_ok tlds l2s c f r h
+
+/-- a strict node with only a trust store configured is refused as "TLS off"; the same files start a lenient node -/
+example : startFiles Facts.C20.tlsEnabled tlds l2s secureCfg { certLen := 0, keyLen := 0, trustLen := 9 } = .refuse "network" "tls-off" ∧
+    (startFiles Facts.C20.tlsEnabled tlds l2s { secureCfg with strict := false } { certLen := 0, keyLen := 0, trustLen := 9 }).isRefuse = false ∧
+    startFiles Facts.C20.tlsEnabled tlds l2s { secureCfg with strict := false } { certLen := 9, keyLen := 0, trustLen := 9 } = .refuse "vcr" "tls-cert" := by
+  decide
 
 end Nuts.C20.Props
